@@ -178,6 +178,7 @@ impl Scenario for MarketHistory {
                     c05::after_step(&w, &out, obs);
                     c02::after_step(&w, &out, obs);
                     c03::after_step(&w, &out, obs);
+                    c03::after_step_positions(&w, &out, obs);
                     c06::after_step(&w, &out, obs);
                     c07::after_step(&w, &out, obs);
                     c08::after_step(&w, &out, obs);
